@@ -47,7 +47,7 @@ impl PlainAcc {
             balance: self.balance,
             nonce: self.nonce,
             code_hash: self.code_hash(),
-            code: Some(Bytecode::new_raw(self.code.clone())),
+            code: Some(Bytecode::new_legacy(self.code.clone())),
         }
     }
 }
